@@ -320,7 +320,7 @@ class Alignment(AbstractAlignment):
             continuum = self.continuum
 
         # simple check: verify that all unitary alignments have the same length
-        first_len = len(self.unitary_alignments[0].n_tuple)
+        first_len = len(self.unitary_alignments[0].n_tuple) if self.unitary_alignments else 0
         for unit_align in self.unitary_alignments:
             if len(unit_align.n_tuple) != first_len:
                 raise ValueError(
@@ -402,7 +402,7 @@ class SoftAlignment(Alignment):
             continuum = self.continuum
 
         # simple check: verify that all unitary alignments have the same length
-        first_len = len(self.unitary_alignments[0].n_tuple)
+        first_len = len(self.unitary_alignments[0].n_tuple) if self.unitary_alignments else 0
         for unit_align in self.unitary_alignments:
             if len(unit_align.n_tuple) != first_len:
                 raise ValueError(
